@@ -39,3 +39,28 @@ Definition mapping_expect (s : N) (input : Z) (elapsed : N) (tmo : Z) : list N :
 (* expected repetition count after a block *)
 Definition ni_expect (r : N) (begun : bool) (old : N) : N :=
   if (0 <? r) && begun then ni_spec r else old.
+
+(* ---- C16: the dictionary the session table has to behave like ---- *)
+Record dent := { d_k0 : N; d_k1 : N; d_k2 : N; d_k3 : N; d_k4 : N; d_k5 : N; d_gen : N; d_seq : N; d_complete : bool; d_last : N }.
+Definition dkey (e : dent) (k0 k1 k2 k3 k4 k5 g : N) : bool :=
+  (d_k0 e =? k0) && (d_k1 e =? k1) && (d_k2 e =? k2) && (d_k3 e =? k3) && (d_k4 e =? k4) && (d_k5 e =? k5) && (d_gen e =? g).
+Definition dict := list dent.
+Definition d_has (d : dict) k0 k1 k2 k3 k4 k5 g : bool := existsb (fun e => dkey e k0 k1 k2 k3 k4 k5 g) d.
+(* add: refresh a known session, insert an unknown one if fewer than 16 are live, else refuse *)
+Definition d_add (d : dict) (now : N) k0 k1 k2 k3 k4 k5 g seq : dict * bool :=
+  if d_has d k0 k1 k2 k3 k4 k5 g then
+    (map (fun e => if dkey e k0 k1 k2 k3 k4 k5 g
+                   then {| d_k0 := d_k0 e; d_k1 := d_k1 e; d_k2 := d_k2 e; d_k3 := d_k3 e; d_k4 := d_k4 e; d_k5 := d_k5 e;
+                           d_gen := d_gen e; d_seq := seq; d_complete := d_complete e; d_last := now |} else e) d, true)
+  else if (length d <? 16)%nat then
+    (d ++ [{| d_k0 := k0; d_k1 := k1; d_k2 := k2; d_k3 := k3; d_k4 := k4; d_k5 := k5;
+              d_gen := g; d_seq := seq; d_complete := false; d_last := now |}], true)
+  else (d, false).
+Definition d_remove (d : dict) k0 k1 k2 k3 k4 k5 g : dict := filter (fun e => negb (dkey e k0 k1 k2 k3 k4 k5 g)) d.
+Definition d_set_complete (d : dict) k0 k1 k2 k3 k4 k5 g (v : bool) : dict :=
+  map (fun e => if dkey e k0 k1 k2 k3 k4 k5 g
+                then {| d_k0 := d_k0 e; d_k1 := d_k1 e; d_k2 := d_k2 e; d_k3 := d_k3 e; d_k4 := d_k4 e; d_k5 := d_k5 e;
+                        d_gen := d_gen e; d_seq := d_seq e; d_complete := v; d_last := d_last e |} else e) d.
+(* a session idle for more than 60 s is removed by the tick *)
+Definition d_tick (d : dict) (now_s : N) : dict := filter (fun e => negb (d_last e + 60 <? now_s)) d.
+Definition d_all_complete (d : dict) : bool := forallb d_complete d.
